@@ -1002,5 +1002,166 @@ theorem del_cursors [DecidableEq K] (st : StrictTotal gt) (d : Db K V) (inv : No
         rw [List.length_take]; omega
       exact delAt_cursors st d inv e hl e2 hi
 
+/-! ### insertion of a new key: every open cursor -/
+
+/-- `fixAdd` on the node after `lower` (the "add to upper" and "split, record goes to the new node" cases) -/
+theorem fixAdd_rel_next {P : K × V → Bool} {pre rest : List (Node K V)} {lower u : Node K V} {kv : K × V} {idx : Nat}
+    (hidx : idx ≤ u.recs.length) (hx : P kv = false)
+    (hl : ∀ r ∈ flatten (pre ++ lower :: u :: rest), P r = true) (p : CPos)
+    (hp : CurOk (pre ++ lower :: u :: rest) p) :
+    InsRel P (pre ++ lower :: u :: rest) (pre ++ lower :: { u with recs := insertAt u.recs idx kv } :: rest)
+      p (fixAdd (pre.length + 1) idx p) := by
+  have e : ∀ X : Node K V, pre ++ lower :: X :: rest = (pre ++ [lower]) ++ X :: rest := by
+    intro X; simp only [List.append_assoc, List.cons_append, List.nil_append]
+  have hlen : pre.length + 1 = (pre ++ [lower]).length := by simp
+  rw [e, e, hlen]
+  rw [e] at hl hp
+  exact fixAdd_rel hidx hx hl p hp
+
+theorem findPos_head (k : K) (l : List (K × V)) : ∀ x ∈ (l.drop (findPos gt k l)).head?, gt x.1 k = false := by
+  induction l with
+  | nil => simp [findPos]
+  | cons y tl ih =>
+    obtain ⟨a, av⟩ := y
+    simp only [findPos]
+    cases h : gt a k with
+    | true => simpa using ih
+    | false => simp [h]
+
+/-- a hit of `_sblk_find_pi_mm` is a record with exactly the key looked for -/
+theorem findPi_true_key (st : StrictTotal gt) {k : K} {recs : List (K × V)} {idx : Nat}
+    (h : findPi gt k recs = (true, idx)) : ∃ av, recs[idx]? = some (k, av) := by
+  have hh := findPos_head (gt := gt) k recs
+  simp only [findPi] at h
+  split at h
+  · rename_i a av tl e
+    simp only [Prod.mk.injEq, Bool.not_eq_eq_eq_not, Bool.not_true] at h
+    rw [e] at hh
+    have h1 := hh (a, av) (by simp)
+    have := st.tri a k h1 h.1
+    subst this
+    rw [← h.2]
+    exact ⟨av, (getElem?_of_drop e).1⟩
+  · simp at h
+
+theorem findPi_le (k : K) (recs : List (K × V)) : (findPi gt k recs).2 ≤ recs.length := by
+  rw [findPi_snd]; exact findPos_le_length k recs
+
+theorem insRel_trans_left {P : K × V → Bool} {ns ns1 ns2 : List (Node K V)} {p p1 p2 : CPos}
+    (h1 : aheadN ns1 p1 = aheadN ns p ∧ aheadP ns1 p1 = aheadP ns p) (h2 : InsRel P ns1 ns2 p1 p2) :
+    InsRel P ns ns2 p p2 := by
+  refine ⟨h2.1, ?_, ?_⟩
+  · rw [h2.2.1, h1.1]
+  · rw [h2.2.2, h1.2]
+
+/-- `put` of a key the store does not hold, whichever branch of `_lx_addkv` it takes: every usable
+    position stays usable; what lies ahead of it afterwards, the newborn filtered out, is exactly what
+    lay ahead before (in both directions) -/
+theorem put_new_cursors [DecidableEq K] (st : StrictTotal gt) (d : Db K V) (k : K) (v : V) (nov : Bool) (lvl : Nat)
+    (hk : ∀ r ∈ flatten d.nodes, r.1 ≠ k) :
+    ∃ fix, CursVia fix d (put gt d k v nov lvl).1 ∧
+      ∀ p, CurOk d.nodes p → InsRel (keyNe k) d.nodes (put gt d k v nov lvl).1.nodes p (fix p) := by
+  have hx : keyNe k (k, v) = false := keyNe_self k v
+  have hall : ∀ r ∈ flatten d.nodes, keyNe k r = true := fun r hr => keyNe_true.2 (hk r hr)
+  have hsame : ∀ o, ∃ fix, CursVia fix d ((d, o) : Db K V × PutOut × Option V).1 ∧
+      ∀ p, CurOk d.nodes p → InsRel (keyNe k) d.nodes ((d, o) : Db K V × PutOut × Option V).1.nodes p (fix p) :=
+    fun o => ⟨id, cursVia_refl d, fun p hp => insRel_refl hall hp⟩
+  obtain ⟨nodes, curs⟩ := d
+  simp only at hk hall hsame ⊢
+  generalize hres : put gt ⟨nodes, curs⟩ k v nov lvl = res
+  cases hr : routeIdx gt k nodes with
+  | zero =>
+    simp only [put, hr, if_true] at hres
+    cases nodes with
+    | nil =>
+      subst hres
+      refine ⟨id, cursVia_id _ _, fun p hp => ?_⟩
+      have hf : flatten ([] : List (Node K V)) = [] ++ [] := rfl
+      have hf' : flatten [(⟨clampLvl ([] : List (Node K V)) lvl, [(k, v)]⟩ : Node K V)] = [] ++ (k, v) :: [] := by simp
+      refine insRel_pseudo hf hf' hx (by simp) ?_
+      intro i j s e; subst e
+      obtain ⟨nd, hn, _⟩ := hp
+      simp at hn
+    | cons u rest =>
+      simp only at hres
+      split at hres
+      · subst hres
+        refine ⟨_, cursVia_mapCurs _ _ _, fun p hp => ?_⟩
+        exact fixAdd_rel (pre := []) (findPi_le k u.recs) hx hall p hp
+      · subst hres
+        refine ⟨_, cursVia_mapCurs _ _ _, fun p hp => ?_⟩
+        exact fixFront_rel _ hx hall p hp
+  | succ li =>
+    simp only [put, hr, Nat.add_one_ne_zero, if_false, Nat.add_sub_cancel] at hres
+    cases hn : nodes[li]? with
+    | none =>
+      simp only [hn] at hres
+      subst hres; exact hsame (.ok, none)
+    | some lower =>
+      obtain ⟨pre, post, e, hl⟩ := exists_split_of_getElem? hn
+      subst e
+      simp only [getElem?_mid hl, take_mid hl, drop_mid hl] at hres
+      subst hl
+      have hidx := findPi_le (gt := gt) k lower.recs
+      cases hp : findPi gt k lower.recs with
+      | mk found idx =>
+      rw [hp] at hres hidx
+      simp only at hres hidx
+      cases found with
+      | true =>
+        exfalso
+        obtain ⟨av, hav⟩ := findPi_true_key st hp
+        refine hk (k, av) ?_ rfl
+        rw [flatten_append, flatten_cons]
+        exact List.mem_append_right _ (List.mem_append_left _ (List.mem_of_getElem? hav))
+      | false =>
+        simp only [Bool.false_eq_true, if_false] at hres
+        split at hres
+        · rename_i hfull
+          generalize hb : (decide (idx ≥ cap) && upperFree post) = b at hres
+          cases b with
+          | true =>
+            cases post with
+            | nil => simp [upperFree] at hb
+            | cons u rest =>
+              simp only [if_true] at hres
+              subst hres
+              refine ⟨_, cursVia_mapCurs _ _ _, fun p hp => ?_⟩
+              exact fixAdd_rel_next (findPi_le k u.recs) hx hall p hp
+          | false =>
+            simp only [Bool.false_eq_true, if_false] at hres
+            split at hres
+            · subst hres
+              refine ⟨_, cursVia_mapCurs _ _ _, fun p hp => ?_⟩
+              exact fixSplitNew_rel _ hx hall p hp
+            · have hfl : flatten (pre ++ { lower with recs := lower.recs.take pivot } ::
+                    ⟨clampLvl (pre ++ lower :: post) lvl, lower.recs.drop pivot⟩ :: post) = flatten (pre ++ lower :: post) := by
+                simp only [flatten_append, flatten_cons]
+                rw [← List.append_assoc (lower.recs.take pivot), List.take_append_drop]
+              have hall1 := hall
+              rw [← hfl] at hall1
+              split at hres
+              · rename_i hpv
+                subst hres
+                refine ⟨fun p => fixAdd (pre.length + 1) (idx - pivot) (fixSplit pre.length true p), ?_, fun p hp => ?_⟩
+                · simp [CursVia, mapCurs]
+                · have h1 := fixSplitMove_rel (clampLvl (pre ++ lower :: post) lvl) p hp
+                  simp only at h1
+                  refine insRel_trans_left h1.2 ?_
+                  exact fixAdd_rel_next (u := ⟨clampLvl (pre ++ lower :: post) lvl, lower.recs.drop pivot⟩)
+                    (by simp only [List.length_drop]; omega) hx hall1 _ h1.1
+              · rename_i hpv
+                subst hres
+                refine ⟨fun p => fixAdd pre.length idx (fixSplit pre.length true p), ?_, fun p hp => ?_⟩
+                · simp [CursVia, mapCurs]
+                · have h1 := fixSplitMove_rel (clampLvl (pre ++ lower :: post) lvl) p hp
+                  simp only at h1
+                  refine insRel_trans_left h1.2 ?_
+                  exact fixAdd_rel (lower := { lower with recs := lower.recs.take pivot })
+                    (by simp only [List.length_take]; simp only [cap, pivot] at hfull hpv ⊢; omega) hx hall1 _ h1.1
+        · subst hres
+          refine ⟨_, cursVia_mapCurs _ _ _, fun p hp => ?_⟩
+          exact fixAdd_rel hidx hx hall p hp
+
 end
 end IwModel.Kv
